@@ -118,6 +118,12 @@ def histories(seed=0):
     # duplicates
     out.append(('duplicates', [(1, 255, fa[0]), (1, 255, fa[1]), (1, 255, fa[1]), (1, 255, fa[2]), (1, 255, fa[2])]))
     out.append(('stray duplicate after delivery', [(1, 255, f) for f in fa] + [(1, 255, fa[1]), (1, 255, fa[2])] + [(1, 255, f) for f in frames_of(B, 3, 0xFF)]))
+    # stray duplicates after delivery for every tail length (the last frame carries 1..7 payload bytes plus padding)
+    for n in range(7, 22):
+        P = pay(n, n)
+        fp = frames_of(P, 2, 0xFF)
+        for dup in (fp[1:], fp[1:][::-1], fp[1:] + fp[1:]):
+            out.append((f'stray duplicates after delivery n={n}', [(1, 255, f) for f in [fp[0]] + fp[1:][::-1]] + [(1, 255, f) for f in dup] + [(1, 255, f) for f in frames_of(B, 3, 0xFF)]))
     # loss then next message
     fb = frames_of(B, 3, 0xFF)
     out.append(('loss', [(1, 255, fa[0]), (1, 255, fa[1])] + [(1, 255, f) for f in fb]))
@@ -142,6 +148,34 @@ def histories(seed=0):
     out.append(('consecutive messages, counter wraps', h))
     # the same sequence counter again after a delivered message (one encoder counter shared by many PGNs wraps every 8 messages)
     out.append(('same counter after delivery', [(1, 255, f) for f in frames_of(A, 5, 0xFF)] + [(1, 255, f) for f in frames_of(B, 5, 0xFF)]))
+    # random histories: several streams, each a sequence of messages whose non-first frames are shuffled, duplicated or lost
+    for k in range(120):
+        streams = []
+        for (sd, dd) in rnd.sample([(1, 255), (2, 255), (1, 10), (1, 20), (0, 0), (7, 3)], rnd.randint(1, 3)):
+            fs = []
+            seq = rnd.randrange(8)
+            for mi in range(rnd.randint(1, 4)):
+                P = pay(rnd.choice([2, 6, 7, 9, 13, 14, 20, 21, 27, 34]), rnd.randrange(200))
+                fr = frames_of(P, seq, rnd.choice([None, 0xFF, 0x00]))
+                rest = fr[1:]
+                mode = rnd.randrange(5)
+                if mode == 1:
+                    rnd.shuffle(rest)
+                elif mode == 2 and rest:
+                    rest = rest + [rnd.choice(rest)]
+                    rnd.shuffle(rest)
+                elif mode == 3 and rest:
+                    rest.pop(rnd.randrange(len(rest)))
+                elif mode == 4 and rest:
+                    rest = rest + rest
+                fs += [(sd, dd, f) for f in [fr[0]] + rest]
+                seq = (seq + rnd.choice([1, 1, 1, 2, 0])) % 8
+            streams.append(fs)
+        h = []
+        while any(streams):
+            st = rnd.choice([x for x in streams if x])
+            h.append(st.pop(0))
+        out.append((f'random history {k}', h))
     # truncated frames then a good message
     out.append(('short frames', [(1, 255, bytes([0x20, 0x09])), (1, 255, bytes([0x21])), (1, 255, bytes([0x22])), (1, 255, b'')] + [(1, 255, f) for f in frames_of(C, 2, 0xFF)]))
     return out
